@@ -399,6 +399,10 @@ fn read_op(c: &mut Cfb, helper: &Engine, handles: &mut Vec<Option<RHandle>>, op:
     }
 }
 
+fn ctl_image(io: &Io) -> Arc<Mutex<Vec<u8>>> {
+    io.data.clone()
+}
+
 pub fn new_ctl(domain: FaultDomain) -> Arc<Mutex<Ctl>> {
     let mut c = Ctl::default();
     c.domain = Some(domain);
@@ -451,6 +455,7 @@ pub struct WriteRunStats {
     pub fault_in_writeback: bool,
     pub flush_ok_after_writeback_fault: bool,
     pub flush_ok_checks: u64,
+    pub reopen_checks: u64,
 }
 
 /// Runs a mutating workload under the fault plan in `ctl` (write-side domain).
@@ -464,6 +469,7 @@ pub fn run_write_script(version: u8, max_buf: Option<u32>, script: &[WOp], ctl: 
         g.faults_enabled = false;
         w
     };
+    let c_io = io.peer();
     let mut c: Cfb = {
         let v = if version == 3 { cfb::Version::V3 } else { cfb::Version::V4 };
         let peer = io.peer_ctl();
@@ -695,6 +701,27 @@ pub fn run_write_script(version: u8, max_buf: Option<u32>, script: &[WOp], ctl: 
                             Ok(v)
                         })?;
                         ctl.lock().unwrap().faults_enabled = enabled;
+                        // "in the compound file": also what the raw bytes show when they are opened
+                        // again. Judged only if the image opens and the stream is found - damage
+                        // that an earlier failed call left elsewhere is not this clause's business.
+                        let snap = Io { data: ctl_image(&c_io), pos: 0, ctl: None, cap: crate::backend::DEFAULT_CAP, file: None, file_path: None };
+                        if let Ok(Ok(mut again)) = guard("reopen", || open_options(None, false).open_with(Io::from_bytes(snap.snapshot()))) {
+                            let rb = guard("readback_reopened", || -> std::io::Result<Vec<u8>> {
+                                let mut f = again.open_stream(WNAMES[name])?;
+                                let mut v = Vec::new();
+                                f.read_to_end(&mut v)?;
+                                Ok(v)
+                            })?;
+                            if let Ok(v) = rb {
+                                st.reopen_checks += 1;
+                                if let Some((&o, &b)) = expected.iter().find(|(&o, &b)| v.get(o as usize) != Some(&b)) {
+                                    return Err(Fail::new(
+                                        format!("write_fault|flush_ok|not_in_file{}", if after_fault { "|after_failed_writeback" } else { "" }),
+                                        format!("flush returned Ok and the live object reads the data back, but the raw bytes reopened show {} of length {} without the accepted byte at offset {} (expected {:#x}, got {:?})", WNAMES[name], v.len(), o, b, v.get(o as usize)),
+                                    ));
+                                }
+                            }
+                        }
                         match got {
                             Err(e) => return Err(Fail::new("write_fault|flush_ok|readback_err", format!("flush returned Ok but reading {} back through a fresh handle failed: {}", WNAMES[name], e))),
                             Ok(v) => {
